@@ -947,12 +947,38 @@ func runSanitizer(c *Ctx) {
 	c.Check(empty, "relpath/empty", v.Pos(), "the empty path is rejected", "validateRelPath accepts the empty path (it names the output directory itself)")
 	c.Check(long, "relpath/length", v.Pos(), "paths longer than maxRelPathLength are rejected", "validateRelPath no longer bounds the path length by maxRelPathLength")
 	// stream-side readers use the same constant
-	for _, name := range []string{"transfer.readRelPathControl", "transfer.readRelPath"} {
-		f := p.Func(name)
-		if f == nil {
-			c.MissingAnchor(name)
-			continue
-		}
+	// the readers are located by what they feed: the function whose result readFileBegin stores into FileBegin.RelPath, and the
+	// legacy record reader of the same name pattern
+	var pathReaders []*FuncInfo
+	if rfb := p.Func("transfer.readFileBegin"); rfb != nil {
+		ri := rfb.Info()
+		ast.Inspect(rfb.Body, func(n ast.Node) bool {
+			as, ok := n.(*ast.AssignStmt)
+			if !ok || len(as.Lhs) != 1 || len(as.Rhs) != 1 {
+				return true
+			}
+			sel, ok := ast.Unparen(as.Lhs[0]).(*ast.SelectorExpr)
+			if !ok || sel.Sel.Name != "RelPath" {
+				return true
+			}
+			for _, d := range resolveExprs(rfb, as.Rhs[0], 2) {
+				if call, ok := ast.Unparen(d).(*ast.CallExpr); ok {
+					if g := p.CalleeInfo(ri, call); g != nil {
+						pathReaders = append(pathReaders, g)
+					}
+				}
+			}
+			return true
+		})
+	}
+	if g := p.Func("transfer.readRelPath"); g != nil {
+		pathReaders = append(pathReaders, g)
+	}
+	if len(pathReaders) < 2 {
+		c.MissingAnchor("the stream readers of relative paths (callee feeding FileBegin.RelPath in readFileBegin; transfer.readRelPath)")
+	}
+	for _, f := range pathReaders {
+		name := f.Name
 		ok := false
 		ast.Inspect(f.Body, func(n ast.Node) bool {
 			if be, isB := n.(*ast.BinaryExpr); isB && be.Op == token.GTR {
